@@ -55,12 +55,26 @@ pub struct Ctx {
     pub start: Instant,
 }
 
+/// The quick tier is bounded by WORK (explicit depths, execution caps per deviation level), so that what it covers does not
+/// depend on how fast the machine happens to be; this wall-clock cap is only a safety net.
+pub const QUICK_HARD_CAP_S: f64 = 150.0;
+
 impl Ctx {
+    /// seconds after which a quick run gives up whatever it is doing (see QUICK_HARD_CAP_S); the tier budget otherwise
+    pub fn hard_cap_s(&self) -> f64 {
+        if self.tier.is_quick() {
+            QUICK_HARD_CAP_S * std::env::var("VERIF_BUDGET_SCALE").ok().and_then(|s| s.parse::<f64>().ok()).unwrap_or(1.0).max(1.0)
+        } else {
+            self.tier.budget_s()
+        }
+    }
     pub fn elapsed(&self) -> f64 {
         self.start.elapsed().as_secs_f64()
     }
+    /// time left before the run gives up: in the quick tier that is the safety net, not the tier budget (quick runs are
+    /// bounded by work)
     pub fn remaining(&self) -> f64 {
-        self.tier.budget_s() - self.elapsed()
+        self.hard_cap_s() - self.elapsed()
     }
     pub fn over_budget(&self) -> bool {
         self.remaining() <= 0.0
